@@ -2431,7 +2431,13 @@ class VM:
                 if setter is not None:
                     self._invoke_setter(setter, obj, value)
                     return
-                if current.has(key_str) or key_str in current._getters:
+                if key_str in current._getters:
+                    # Accessor property without a setter: all code is strict, so the
+                    # failed assignment is a TypeError (and must not add a data property)
+                    raise JSTypeError(
+                        f"Cannot set property {key_str} which has only a getter"
+                    )
+                if current.has(key_str):
                     break
                 current = current._prototype
             obj.set(key_str, value)
